@@ -40,11 +40,17 @@ type deriveCase struct {
 	Seed  h.B      `json:"seed"`
 	Path  []uint32 `json:"path"`  // walk down from the master (any indices)
 	Index uint32   `json:"index"` // non-hardened index to derive both ways
+	// further non-hardened children derived from the same parent object afterwards
+	Siblings []uint32 `json:"siblings,omitempty"`
+	Retry    bool     `json:"retry,omitempty"` // the official SLIP-0010 retry vector parent (index 33941 retries)
 }
 
 func checkDerive(c deriveCase) (h.Info, error) {
 	cv, _ := curveOf(c.Curve)
 	info := h.Info{Class: c.Curve + "/derive", NT: true}
+	if c.Retry {
+		info.Class = c.Curve + "/derive-with-retry"
+	}
 	if c.Index >= slip10.Hardened {
 		return info, fmt.Errorf("PRECONDITION: hardened index")
 	}
@@ -73,6 +79,32 @@ func checkDerive(c deriveCase) (h.Info, error) {
 	if !bytes.Equal(a.Fingerprint(), pubChild.Fingerprint()) || !bytes.Equal(child.Fingerprint(), pubChild.Fingerprint()) {
 		return info, fmt.Errorf("fingerprints differ: %x vs %x", a.Fingerprint(), pubChild.Fingerprint())
 	}
+	// several children of the SAME parent object, compared only after all of them exist, against
+	// children of an independently built public parent (buffers or hash state kept on the parent must
+	// not leak from one derivation into another, also not after a derivation that needed a retry)
+	sibs := append([]uint32{c.Index}, c.Siblings...)
+	var kids []*slip10.ExtendedKey
+	for _, idx := range sibs {
+		k, err := parent.DeriveChild(idx)
+		if err != nil {
+			return info, fmt.Errorf("sibling derivation %d: %v", idx, err)
+		}
+		kids = append(kids, k)
+	}
+	for i, idx := range sibs {
+		fresh, err := slip10.DeriveKeyFromPath(c.Seed, cv, c.Path)
+		if err != nil {
+			return info, err
+		}
+		pk, err := fresh.Public().DeriveChild(idx)
+		if err != nil {
+			return info, fmt.Errorf("public sibling derivation %d: %v", idx, err)
+		}
+		kp := kids[i].Public()
+		if !bytes.Equal(kp.Key.Bytes(), pk.Key.Bytes()) || !bytes.Equal(kp.ChainCode, pk.ChainCode) || !bytes.Equal(kp.Fingerprint(), pk.Fingerprint()) {
+			return info, fmt.Errorf("child %d (number %d of %v derived from the same parent object under %v): key %x chain code %x, child of an independently built public parent: key %x chain code %x", idx, i, sibs, c.Path, kp.Key.Bytes(), kp.ChainCode, pk.Key.Bytes(), pk.ChainCode)
+		}
+	}
 	// one level further from the public child (public-only chain)
 	g1, err1 := pubChild.DeriveChild(c.Index ^ 1)
 	g2, err2 := child.DeriveChild(c.Index ^ 1)
@@ -82,7 +114,21 @@ func checkDerive(c deriveCase) (h.Info, error) {
 	return info, nil
 }
 
+var retrySeed = []byte{0, 1, 2, 3, 4, 5, 6, 7, 8, 9, 10, 11, 12, 13, 14, 15}
+
 func genDerive(t *rapid.T) deriveCase {
+	if h.Pick(t, "retryvec", 7, 1) == 1 {
+		// SLIP-0010 "derivation retry" vector for P-256: m/28578' -> index 33941 needs one retry
+		c := deriveCase{Curve: "nist256p1", Seed: retrySeed, Path: []uint32{28578 | 1<<31}, Index: 33941, Retry: true}
+		n := rapid.IntRange(1, 3).Draw(t, "nsib")
+		for i := 0; i < n; i++ {
+			c.Siblings = append(c.Siblings, h.OneOf(t, "sib", uint32(0), 1, 33940, 33942, rapid.Uint32Range(0, 1<<31-1).Draw(t, "sibr")))
+		}
+		if rapid.Bool().Draw(t, "retryfirst") {
+			c.Index, c.Siblings[0] = c.Siblings[0], c.Index
+		}
+		return c
+	}
 	c := deriveCase{Curve: h.OneOf(t, "curve", "secp256k1", "nist256p1")}
 	c.Seed = h.Bytes(t, "seed", 1, 64)
 	n := rapid.IntRange(0, 3).Draw(t, "plen")
@@ -95,6 +141,9 @@ func genDerive(t *rapid.T) deriveCase {
 	default:
 		c.Index = rapid.Uint32Range(0, 1<<31-1).Draw(t, "ir")
 	}
+	for i, n := 0, rapid.IntRange(0, 3).Draw(t, "nsib"); i < n; i++ {
+		c.Siblings = append(c.Siblings, rapid.Uint32Range(0, 1<<31-1).Draw(t, "sib"))
+	}
 	return c
 }
 
@@ -102,8 +151,8 @@ func TestDeriveCommutes(t *testing.T) {
 	h.Run(t, h.Sub[deriveCase]{
 		Prop: "C08", Name: "derive-commutes", N: 1200,
 		Gen: genDerive, Check: checkDerive,
-		Require: []string{"secp256k1/derive", "nist256p1/derive"},
-		Rule:    "parents = master of a random seed walked down 0..3 random indices, on secp256k1 and P-256; every non-hardened index (corners 0,1,2,2^31-1 and random): Public() of the private child = child of Public() parent in key bytes, chain code, fingerprint; also one level further; all non-trivial; distinct by case",
+		Require: []string{"secp256k1/derive", "nist256p1/derive", "nist256p1/derive-with-retry"},
+		Rule:    "parents = master of a random seed walked down 0..3 random indices, on secp256k1 and P-256; every non-hardened index (corners 0,1,2,2^31-1 and random): Public() of the private child = child of Public() parent in key bytes, chain code, fingerprint; also one level further; 1-4 siblings derived from the same parent object and compared afterwards with children of an independently built public parent; the official P-256 retry vector parent (index 33941 retries) with siblings before and after the retried derivation; all non-trivial; distinct by case",
 	})
 }
 
